@@ -340,6 +340,12 @@ func Run(ctx *common.Ctx) {
 	}
 	for i := 0; i < nplace; i++ {
 		x, d := randInt(), randInt()
+		if i < 2*len(pairGrid) { // every boundary value as delta, the place random and at the extremes
+			d = pairGrid[i/2]
+			if i%2 == 1 {
+				x = common.Pick(ctx.Rng, pairGrid)
+			}
+		}
 		xs, ds := show(new(big.Rat).SetInt(x)), show(new(big.Rat).SetInt(d))
 		prog := fmt.Sprintf("(let ((x %s) (d %s)) (incf x d) (incf x d) (decf x d) (list x d))", xs, ds)
 		want := fmt.Sprintf("(%s %s)", new(big.Int).Add(x, d).String(), d.String())
